@@ -237,6 +237,7 @@ def gen_history(r, hid, masked, quick=True, nruns=None):
         elif x < 0.5:
             rec[p] = vtext(r.choice(vs))
     runs = []
+    rh = random.Random("how/%s" % hid)               # (own stream: what happens to Home Assistant between two runs)
     base = gen_lines(r, pkgs, risky, 1, 5)
     for k in range(nruns or r.randint(1, 3)):
         if k and r.random() < 0.5:                     # the files usually change a little between starts
@@ -257,7 +258,8 @@ def gen_history(r, hid, masked, quick=True, nruns=None):
                 if r.random() < 0.25:
                     ext[p] = vtext(r.choice(vs)) if r.random() < 0.8 else None
         lay = layouts(r, lines, 4 if quick else 5, 8 if quick else 30)
-        runs.append({"lines": copy.deepcopy(lines), "allow": r.random() < 0.8, "ext": ext, "layouts": lay,
+        runs.append({"lines": copy.deepcopy(lines), "how": "first" if not k else "restart" if rh.random() < 0.35 else "again",
+                     "allow": r.random() < 0.8, "ext": ext, "layouts": lay,
                      "install_layout": r.randrange(len(lay)),
                      "latest": {p: (vtext(r.choice(vs)) if r.random() < 0.9 else None) for p in pkgs}})
     return {"id": hid, "risky": risky, "masked": masked, "pkgs": pkgs, "env": env, "rec": rec, "runs": runs}
@@ -272,6 +274,37 @@ def write_layout(folder, lines, layout):
         os.makedirs(os.path.dirname(path), exist_ok=True)
         with open(path, "w", encoding="utf-8") as f:
             f.write("".join(render(lines[i]) + "\n" for i in idxs))
+
+
+SAVE_WAIT = 2.0          # virtual seconds between runs: longer than Home Assistant's delayed save of the config entries (1 s)
+
+
+def boots(runs):
+    """Split the runs of a history into the lives of Home Assistant: a run that comes about by "restart" starts a new one."""
+    out = []
+    for k, run in enumerate(runs):
+        if k == 0 or run.get("how") == "restart":
+            out.append([])
+        out[-1].append(run)
+    return out
+
+
+def call_entry(c):
+    return entry(c.split("==", 1)[0], c.split("==", 1)[1], False) if "==" in c else entry(c, "", True)
+
+
+def recording(run, how, sels, tried, before_env, before_rec, loaded, calls, env, rec2, disk2, exc, raw):
+    """One run as the acceptor sees it (RequirementsTrace.tla)."""
+    return {
+        "lines": run["lines"], "how": how, "allow": run["allow"], "sels": list(sels.values()) if isinstance(sels, dict) else sels, "layouts_tried": tried,
+        "inst": {p: vproj(before_env.get(p)) for p in P4}, "rec": {p: vproj(before_rec.get(p)) for p in P4},
+        "loaded": {p: vproj(loaded.get(p)) for p in P4},
+        "calls": [call_entry(c) for c in calls],
+        "after": {p: vproj(env.get(p)) for p in P4}, "rec2": {p: vproj(rec2.get(p)) for p in P4},
+        "disk2": {p: vproj(disk2.get(p)) for p in P4},
+        "extra": sum(1 for k in list(rec2) + list(before_rec) + list(loaded) if k not in P4), "diskextra": sum(1 for k in disk2 if k not in P4), "exc": exc,
+        "raw": dict({"texts": [render(l) for l in run["lines"]], "calls": list(calls), "rec2": rec2, "loaded": loaded, "disk2": disk2}, **raw),
+    }
 
 
 def run_histories(job):
@@ -294,45 +327,60 @@ def run_histories(job):
     folder = os.path.join(job["scratch"], "pyscript_%d" % os.getpid())
     real_process = rq.process_all_requirements
     out = []
+    stored = {}                                     # Home Assistant's storage (mock_storage: key -> {version, data}), per history
 
-    async def main(hass):
+    def stored_record():
+        """(record, stray keys) of the pyscript entry as storage holds it."""
+        ents = [e for e in stored.get("core.config_entries", {}).get("data", {}).get("entries", []) if e["domain"] == DOMAIN]
+        return dict(ents[0]["data"].get(CONF_INSTALLED_PACKAGES) or {}) if ents else {}
+
+    async def boot(hass, h, boot_runs, state):
+        """One life of Home Assistant's config entries: a fresh ConfigEntries manager whose entries are what storage holds, as
+        when HA starts (first life: the entry of the history's "previous life" is added and written)."""
+        from homeassistant import config_entries
         from pytest_homeassistant_custom_component.common import MockConfigEntry
-        for h in hists:
-            env = dict(h["env"])
-            entry_ = MockConfigEntry(domain=DOMAIN, data={CONF_ALLOW_ALL_IMPORTS: True, CONF_INSTALLED_PACKAGES: dict(h["rec"])})
-            entry_.add_to_hass(hass)
-            calls, tables = [], []
+        env, calls, rec_runs = state["env"], state["calls"], state["rec_runs"]
+        cur = {}
 
-            def installed(name):
-                if env.get(name) is None:
-                    raise PackageNotFoundError(name)
-                return env[name]
+        def installed(name):
+            if env.get(name) is None:
+                raise PackageNotFoundError(name)
+            return env[name]
 
-            async def installer(hass_, domain, reqs, *a, **k):
-                for req in reqs:
-                    calls.append(req)
-                    if "==" in req:
-                        name, ver = req.split("==", 1)
-                        env[name] = ver + (".0" if h["risky"] == "spelling" and ver == "1.0" else "")
-                    else:
-                        env[req] = run["latest"].get(req)
+        async def installer(hass_, domain, reqs, *a, **k):
+            for req in reqs:
+                calls.append(req)
+                if "==" in req:
+                    name, ver = req.split("==", 1)
+                    env[name] = ver + (".0" if h["risky"] == "spelling" and ver == "1.0" else "")
+                else:
+                    env[req] = cur["run"]["latest"].get(req)
 
-            def spy(*a, **k):
-                t = real_process(*a, **k)
-                tables.append(t)
-                return t
+        def table(t):
+            return [entry(k, v["version"], v["version"] == UNPINNED_VERSION) for k, v in t.items()]
 
-            def table(t):
-                return [entry(k, v["version"], v["version"] == UNPINNED_VERSION) for k, v in t.items()]
-
-            rec_runs = []
-            with patch.object(rq, "installed_version", installed), patch.object(rq, "async_process_requirements", installer), \
-                    patch.object(rq, "process_all_requirements", spy):
-                for run in h["runs"]:
+        if True:
+            hass.config_entries = config_entries.ConfigEntries(hass, {})
+            if state["first"]:
+                entry_ = MockConfigEntry(domain=DOMAIN, data={CONF_ALLOW_ALL_IMPORTS: True, CONF_INSTALLED_PACKAGES: dict(h["rec"])})
+                entry_.add_to_hass(hass)
+                hass.config_entries._async_schedule_save()
+                await asyncio.sleep(SAVE_WAIT)
+                state["first"] = False
+            else:
+                await hass.config_entries.async_initialize()          # (what HA does when it starts: entries from storage)
+                es = hass.config_entries.async_entries(DOMAIN)
+                if len(es) != 1:
+                    raise MachineryFailure("restart: %d pyscript entries in storage" % len(es))
+                entry_ = es[0]
+            with patch.object(rq, "installed_version", installed), patch.object(rq, "async_process_requirements", installer):
+                for run in boot_runs:
+                    cur["run"] = run
                     env.update(run["ext"])
                     hass.config_entries.async_update_entry(entry_, data={**entry_.data, CONF_ALLOW_ALL_IMPORTS: run["allow"]})
                     before_env = dict(env)
-                    before_rec = dict(entry_.data.get(CONF_INSTALLED_PACKAGES, {}))
+                    loaded = dict(entry_.data.get(CONF_INSTALLED_PACKAGES, {}))
+                    before_rec = loaded if state["rec2"] is None else state["rec2"]
                     # selection under every layout (order of files and lines)
                     sels = {}
                     for lay in run["layouts"]:
@@ -352,28 +400,31 @@ def run_histories(job):
                     except Exception as ex:
                         exc = type(ex).__name__
                     rec2 = dict(entry_.data.get(CONF_INSTALLED_PACKAGES, {}))
-                    rec_runs.append({
-                        "lines": run["lines"], "allow": run["allow"], "sels": list(sels.values()), "layouts_tried": len(run["layouts"]),
-                        "inst": {p: vproj(before_env.get(p)) for p in P4}, "rec": {p: vproj(before_rec.get(p)) for p in P4},
-                        "calls": [entry(c.split("==", 1)[0], c.split("==", 1)[1], False) if "==" in c else entry(c, "", True) for c in calls],
-                        "after": {p: vproj(env.get(p)) for p in P4}, "rec2": {p: vproj(rec2.get(p)) for p in P4},
-                        "extra": sum(1 for k in list(rec2) + list(before_rec) if k not in P4), "exc": exc,
-                        "raw": {"texts": [render(l) for l in run["lines"]], "calls": list(calls), "rec2": rec2},
-                    })
-            out.append({"id": h["id"], "risky": h["risky"], "masked": h["masked"], "runs": rec_runs, "hist": h})
+                    await asyncio.sleep(SAVE_WAIT)                    # time passes: HA writes what it was told to write
+                    await hass.async_block_till_done()
+                    disk2 = stored_record()
+                    state["rec2"] = rec2
+                    rec_runs.append(recording(run, run.get("how", "again"), sels, len(run["layouts"]), before_env, before_rec, loaded, calls, env, rec2,
+                                              disk2, exc, {}))
+
+    async def main():
+        from pytest_homeassistant_custom_component.common import async_test_home_assistant
+        async with async_test_home_assistant(loop) as hass:
+            for h in hists:
+                stored.clear()
+                state = {"env": dict(h["env"]), "calls": [], "rec_runs": [], "first": True, "rec2": None}
+                for boot_runs in boots(h["runs"]):
+                    await boot(hass, h, boot_runs, state)
+                out.append({"id": h["id"], "risky": h["risky"], "masked": h["masked"], "runs": state["rec_runs"], "hist": h})
+            await hass.async_stop(force=True)
 
     loop = VirtualLoop()
     asyncio.set_event_loop(loop)
-
-    async def outer():
-        from pytest_homeassistant_custom_component.common import async_test_home_assistant
-        async with async_test_home_assistant(loop) as hass:
-            await main(hass)
-            await hass.async_stop(force=True)
-
     try:
         if hists:
-            loop.run_until_complete(outer())
+            from pytest_homeassistant_custom_component.common import mock_storage
+            with mock_storage(stored):
+                loop.run_until_complete(main())
     finally:
         loop.close()
         shutil.rmtree(folder, ignore_errors=True)
@@ -391,6 +442,7 @@ def gen_yaml_history(r, hid, quick=True):
     h["yaml"] = True
     h["rec"] = {}
     for run in h["runs"]:
+        run["how"] = {"again": "reload"}.get(run["how"], run["how"])
         run["layouts"] = [run["layouts"][run["install_layout"]]]
         run["install_layout"] = 0
         run["allow"] = run["allow"] or r.random() < 0.5          # mostly allowed: something has to be installed first
@@ -405,8 +457,33 @@ def yaml_witness():
             "runs": [run((1, 0)), run((1, 0)), run((2, 0)), run((2, 0))]}
 
 
+def restart_witnesses():
+    """The record changes in a later run (update of an own package; entry of a now-foreign package dropped), Home Assistant
+    restarts, the pin changes again: fixed histories, direct and through configuration.yaml."""
+    L = lambda v: make_line("pin", "aa", list(v))      # noqa: E731
+    def run(v, how, ext=None):
+        return {"lines": [L(v)], "how": how, "allow": True, "ext": ext or {}, "layouts": [{"requirements.txt": [0]}], "install_layout": 0,
+                "latest": {"aa": "2.0"}}
+    out = []
+    for yaml in (False, True):
+        again = "reload" if yaml else "again"
+        for name, runs in (("update-restart-update", [run((1, 0), "first"), run((1, 1), again), run((2, 0), "restart"), run((2, 0, 1), "restart")]),
+                           ("drop-restart", [run((1, 0), "first"), run((1, 1), again, {"aa": "1.9"}), run((2, 0), "restart", {"aa": "1.1"}),
+                                             run((2, 0), again)]),
+                           ("install-restart-update", [run((1, 0), "first"), run((1, 1), "restart"), run((1, 1), "restart"), run((2, 0), again)])):
+            h = {"id": "W/%srestart/%s" % ("yaml-" if yaml else "", name), "risky": None, "masked": True, "pkgs": ["aa"], "env": {"aa": None}, "rec": {},
+                 "runs": copy.deepcopy(runs)}
+            if yaml:
+                h["yaml"] = True
+            out.append(h)
+    return out
+
+
 def run_yaml_history(h, scratch):
-    """One yaml-configured HomeAssistant instance per history; same recording format as run_histories."""
+    """One yaml-configured Home Assistant per history - one instance per life: a run that comes about by "restart" stops the
+    instance and starts a new one on the same configuration directory (real storage files under <config>/.storage; the new
+    instance loads its config entries from there, then pyscript is set up from configuration.yaml as at every start).
+    Same recording format as run_histories."""
     import asyncio
     import tempfile
     import world
@@ -422,6 +499,7 @@ def run_yaml_history(h, scratch):
     env = dict(h["env"])
     calls, tables, rec_runs = [], [], []
     cur = {}
+    state = {"k": 0, "rec2": None}
 
     def installed(name):
         if env.get(name) is None:
@@ -449,10 +527,14 @@ def run_yaml_history(h, scratch):
         es = hass.config_entries.async_entries(DOMAIN)
         return dict(es[0].data.get(CONF_INSTALLED_PACKAGES, {})) if es else {}
 
-    loop = VirtualLoop()
-    asyncio.set_event_loop(loop)
+    def stored_record():
+        path = os.path.join(root, ".storage", "core.config_entries")
+        if not os.path.exists(path):
+            return {}
+        ents = [e for e in json.load(open(path))["data"]["entries"] if e["domain"] == DOMAIN]
+        return dict(ents[0]["data"].get(CONF_INSTALLED_PACKAGES) or {}) if ents else {}
 
-    async def main():
+    async def life(loop, boot_runs):
         from pytest_homeassistant_custom_component.common import async_test_home_assistant
         from homeassistant import loader
         from homeassistant.const import EVENT_HOMEASSISTANT_STARTED
@@ -460,17 +542,23 @@ def run_yaml_history(h, scratch):
         async with async_test_home_assistant(loop, config_dir=root) as hass:
             hass.data.pop(loader.DATA_CUSTOM_COMPONENTS, None)
             os.makedirs(os.path.join(root, "custom_components"), exist_ok=True)
-            os.symlink(os.path.join(world.SRC_ROOT, "custom_components", "pyscript"), os.path.join(root, "custom_components", "pyscript"))
+            link = os.path.join(root, "custom_components", "pyscript")
+            if not os.path.islink(link):
+                os.symlink(os.path.join(world.SRC_ROOT, "custom_components", "pyscript"), link)
+            if state["k"]:
+                await hass.config_entries.async_initialize()          # (what HA does when it starts: entries from storage)
             cfgbox = {"cfg": {DOMAIN: {CONF_ALLOW_ALL_IMPORTS: True, "hass_is_global": False}}}
             with patch("homeassistant.config.load_yaml_config_file", side_effect=lambda *a, **k: cfgbox["cfg"]), \
                     patch("custom_components.pyscript.watchdog_start", return_value=None), \
                     patch.object(rq, "installed_version", installed), patch.object(rq, "async_process_requirements", installer), \
                     patch.object(rq, "process_all_requirements", spy):
-                for k, run in enumerate(h["runs"]):
+                for j, run in enumerate(boot_runs):
+                    k = state["k"]
                     cur["run"] = run
                     env.update(run["ext"])
                     cfgbox["cfg"] = {DOMAIN: {CONF_ALLOW_ALL_IMPORTS: run["allow"], "hass_is_global": False}}
-                    before_env, before_rec = dict(env), record(hass)
+                    before_env, loaded = dict(env), record(hass)
+                    before_rec = loaded if state["rec2"] is None else state["rec2"]
                     lay = run["layouts"][run["install_layout"]]
                     os.makedirs(folder, exist_ok=True)
                     for rel in PATHS:                       # (only the requirement files are replaced)
@@ -485,7 +573,7 @@ def run_yaml_history(h, scratch):
                     del tables[:]
                     exc = ""
                     try:
-                        if k == 0:
+                        if j == 0:
                             if not await async_setup_component(hass, DOMAIN, cfgbox["cfg"]):
                                 exc = "SetupFailed"
                             hass.bus.async_fire(EVENT_HOMEASSISTANT_STARTED)
@@ -497,26 +585,31 @@ def run_yaml_history(h, scratch):
                     if not exc and len(tables) != 1:
                         exc = "install_requirements ran %d times" % len(tables)
                     rec2 = record(hass)
-                    rec_runs.append({
-                        "lines": run["lines"], "allow": run["allow"], "sels": [table(t) for t in tables[:1]], "layouts_tried": 0,
-                        "inst": {p: vproj(before_env.get(p)) for p in P4}, "rec": {p: vproj(before_rec.get(p)) for p in P4},
-                        "calls": [entry(c.split("==", 1)[0], c.split("==", 1)[1], False) if "==" in c else entry(c, "", True) for c in calls],
-                        "after": {p: vproj(env.get(p)) for p in P4}, "rec2": {p: vproj(rec2.get(p)) for p in P4},
-                        "extra": sum(1 for x in list(rec2) + list(before_rec) if x not in P4), "exc": exc,
-                        "raw": {"texts": [render(l) for l in run["lines"]], "calls": list(calls), "rec2": rec2,
-                                "how": "async_setup_component (yaml)" if k == 0 else "pyscript.reload"},
-                    })
+                    await asyncio.sleep(SAVE_WAIT)            # time passes: HA writes what it was told to write
+                    await world.settle(loop)
+                    disk2 = stored_record()
+                    how = "first" if k == 0 else "restart" if j == 0 else "reload"
+                    rec_runs.append(recording(run, how, [table(t) for t in tables[:1]], 0, before_env, before_rec, loaded, calls, env, rec2, disk2, exc,
+                                              {"how": {"first": "async_setup_component (yaml)", "reload": "pyscript.reload",
+                                                       "restart": "Home Assistant restarted, async_setup_component (yaml)"}[how]}))
+                    state["k"] += 1
+                    state["rec2"] = rec2
             await hass.async_stop(force=True)
 
     try:
-        world.reset()
-        Function.hass = None
-        loop.run_until_complete(main())
+        for boot_runs in boots(h["runs"]):
+            loop = VirtualLoop()
+            asyncio.set_event_loop(loop)
+            try:
+                world.reset()
+                Function.hass = None
+                loop.run_until_complete(life(loop, boot_runs))
+            finally:
+                try:
+                    loop.close()
+                except Exception:
+                    pass
     finally:
-        try:
-            loop.close()
-        except Exception:
-            pass
         shutil.rmtree(root, ignore_errors=True)
     return {"id": h["id"], "risky": h["risky"], "masked": h["masked"], "runs": rec_runs, "hist": h}
 
@@ -534,6 +627,12 @@ def accept(ctx, cases, label):
         raise MachineryFailure("RequirementsTrace: unparsable verdict %s" % [r for r in res.rejects if "id" not in r][:1])
     ctx.add_tlc(res, "RequirementsTrace:" + label)
     return {r["id"]: r for r in res.rejects}
+
+
+def same_ver(a, b):
+    """(selects recordings to corrupt; the verdict is TLC's)"""
+    strip = lambda v: v[:max([i + 1 for i, x in enumerate(v) if x] or [0])]      # noqa: E731
+    return strip(a) == strip(b)
 
 
 def only_tricky_line(run):
@@ -569,13 +668,24 @@ def corruptions(cases):
         p = [l for l in run["lines"] if l["f"] == "comment" and l["cm"] == "tricky"][0]["p"]
         c2["runs"][k]["sels"] = [[e for e in t if e["p"] != p] + [{"p": p, "r": {"k": "pin", "v": [9, 9]}}] for t in run["sels"]]
 
-    kinds = [("dropcall", lambda run: bool(run["calls"]), dropcall), ("notallowed", lambda run: bool(run["calls"]), notallowed),
+    def staledisk(run, k, c2):            # the changed record never reached storage
+        for p in P4:
+            if not same_ver(run["rec"][p], run["rec2"][p]):
+                c2["runs"][k]["disk2"][p] = run["rec"][p]
+
+    def lostrecord(run, k, c2):           # the record did not come back after the restart
+        for p in P4:
+            c2["runs"][k]["loaded"][p] = []
+
+    kinds = [("staledisk", lambda run: any(not same_ver(run["rec"][p], run["rec2"][p]) for p in P4), staledisk),
+             ("lostrecord", lambda run: run["how"] == "restart" and any(run["rec"][p] for p in P4), lostrecord),
+             ("dropcall", lambda run: bool(run["calls"]), dropcall), ("notallowed", lambda run: bool(run["calls"]), notallowed),
              ("record", lambda run: any(run["rec2"][p] for p in P4), record), ("selection", lambda run: bool(run["sels"] and run["sels"][0]), selection),
              ("commentdrop", lambda run: only_tricky_line(run) is not None, commentdrop),
              ("commentpin", lambda run: bool(run["sels"]) and any(l["f"] == "comment" and l["cm"] == "tricky" for l in run["lines"]), commentpin)]
     bad, want = [], {}
     for c in cases:
-        if len(bad) >= 90:
+        if len(bad) >= 96:
             break
         name, applies, apply = kinds[len(bad) % len(kinds)]
         for k, run in enumerate(c["runs"]):
@@ -607,9 +717,12 @@ def validate(ctx, cases, label, selftest=True):
         what = "%s rejected in run %d (risky form: %s): lines %s -> tables %s, installer %s, record %s%s" % (
             rj["why"], rj["at"], c["risky"], run["raw"]["texts"], [[(e["p"], e["r"].get("v", e["r"].get("s", "unpinned"))) for e in t] for t in run["sels"]][:3],
             run["raw"]["calls"], run["raw"]["rec2"], (" exception " + run["exc"]) if run["exc"] else "")
+        if rj["why"] in ("carry", "persist"):
+            what += "; run came about by '%s'; record left by the previous run %s, read from the entry before this run %s, in storage after it %s" % (
+                run["how"], {p: vtext(v) for p, v in run["rec"].items() if v}, run["raw"]["loaded"], run["raw"]["disk2"])
         hist = dict(c["hist"])
         hist["runs"] = hist["runs"][:rj["at"]]
-        status = ctx.report(sig, what[:600], {"hist": hist, "recording": {"id": c["id"], "runs": c["runs"][:rj["at"]]}, "verdict": rj})
+        status = ctx.report(sig, what[:900], {"hist": hist, "recording": {"id": c["id"], "runs": c["runs"][:rj["at"]]}, "verdict": rj})
         if c["masked"] and status == "known":
             ctx.report({"clause": "mask-hole", "masked_form": c["risky"]}, "known deviation reached with its generator mask on: " + what[:300],
                        {"hist": hist, "verdict": rj})
@@ -627,6 +740,8 @@ def validate(ctx, cases, label, selftest=True):
         ctx.cov["selftest_corruptions_by_kind"] = dict(sorted(kinds.items()))
         if not kinds.get("commentdrop") or not kinds.get("commentpin"):
             raise MachineryFailure("selftest: no corrupted recording of a line with a requirement-like comment (%s)" % kinds)
+        if not kinds.get("staledisk") or not kinds.get("lostrecord"):
+            raise MachineryFailure("selftest: no corrupted recording of a stale stored record / a record lost in a restart (%s)" % kinds)
     return rejects
 
 
@@ -676,9 +791,11 @@ def comment_witnesses():
 
 def mc_configs(ctx):
     rd = lambda f: open(os.path.join(tlc.SPEC_DIR, f)).read()      # noqa: E731
-    one, two = rd("Requirements.cfg"), rd("Requirements2.cfg")
+    one, two, store = rd("Requirements.cfg"), rd("Requirements2.cfg"), rd("RequirementsStore.cfg")
     one += "\nCONSTRAINT WitnessTrack\nPOSTCONDITION WitnessPost\n"
+    store += "\nCONSTRAINT WitnessTrack\nPOSTCONDITION WitnessPost\n"
     cfgs = [("1 package x {none,1.0,1.1,2.0} x 3 runs, <= 2 lines + witnesses", one, 1),
+            ("storage explicit (delayed write, Flush, Restart): 1 package x {none,1.0,1.1,2.0} x 3 runs, <= 2 plain lines + witnesses", store, 1),
             ("2 packages x {none,1.0,2.0} x 2 runs, <= 1 line each", two, 4)]
     if not ctx.quick:
         cfgs.append(("2 packages x {none,1.0,1.1,2.0} x 3 runs, <= 1 line each", two.replace("Vers <- V2", "Vers <- V3").replace("MaxRuns = 2", "MaxRuns = 3"), 8))
@@ -711,7 +828,7 @@ def main(ctx):
         jobs = [{"seed": ctx.seed * 1000 + k, "count": scaled(ctx.pick(30, 300)), "yaml": scaled(ctx.pick(6, 60)), "scratch": ctx.scratch,
                  "quick": ctx.quick} for k in range(16)]
         results = run_workers("harness.drivers.c20", "run_histories",
-                              jobs + [{"seed": 0, "hists": witnesses() + [yaml_witness()], "scratch": ctx.scratch, "quick": True}],
+                              jobs + [{"seed": 0, "hists": witnesses() + [yaml_witness()] + restart_witnesses(), "scratch": ctx.scratch, "quick": True}],
                               ctx.scratch, nproc=min(17, NPROC))
         mc_res = [f.result() for f in f_mc]
     for (label, _, _), res in zip(mcs, mc_res):
@@ -719,10 +836,11 @@ def main(ctx):
             raise MachineryFailure("witness not reached: %s" % [ln for ln in res.out.splitlines() if "WITNESS" in ln][:5])
         if not res.ok:
             ctx.report({"clause": "model:" + res.violated}, "Requirements.tla violates %s" % res.violated, {"cex": res.cex})
-        if res.coverage and any(t == 0 for a, (d, t) in res.coverage.items() if a in ("Run", "External")):
+        if res.coverage and any(t == 0 for a, (d, t) in res.coverage.items()
+                                if a in ("Run", "External") + (("Flush", "Restart") if label.startswith("storage") else ())):
             raise MachineryFailure("model checking: an action was never taken: %s" % res.coverage)
         ctx.add_tlc(res, "Requirements(%s)" % label)
-    ctx.cov["witnesses_reached"] = 8 if mcs else 0
+    ctx.cov["witnesses_reached"] = 10 if mcs else 0
     cases = [c for r in results for c in r]
     rejects = validate(ctx, cases, "histories")
     runs = [run for c in cases for run in c["runs"]]
@@ -735,6 +853,25 @@ def main(ctx):
                                               if any(run["rec"][p] and run["rec"][p] == run["inst"][p] for p in P4))
     if not ctx.replay and ctx.cov["reloads_with_own_package"] == 0:
         raise MachineryFailure("vacuous coverage: no reload with a package installed by pyscript")
+    # the record across what happens to Home Assistant between two runs
+    hows, changed_then_restart, own_upd_after_restart, changes = {}, 0, 0, 0
+    for c in cases:
+        changed = False
+        for run in c["runs"]:
+            key = "%s (%s)" % (run["how"], "yaml" if c["hist"].get("yaml") else "direct")
+            hows[key] = hows.get(key, 0) + 1
+            if run["how"] == "restart":
+                changed_then_restart += changed
+                own_upd_after_restart += any(run["rec"][e["p"]] for e in run["calls"] if e["p"] in P4)
+            if any(run["rec"][p] and not same_ver(run["rec"][p], run["rec2"][p]) for p in P4):
+                changed = True
+                changes += 1
+    ctx.cov["runs_by_how"] = dict(sorted(hows.items()))
+    ctx.cov["runs_changing_an_existing_record_entry"] = changes
+    ctx.cov["restarts_after_such_a_run"] = changed_then_restart
+    ctx.cov["own_package_updated_in_first_run_after_restart"] = own_upd_after_restart
+    if not ctx.replay and (not hows.get("restart (yaml)") or not hows.get("restart (direct)") or not changed_then_restart or not own_upd_after_restart):
+        raise MachineryFailure("vacuous coverage: restarts %s after-change %d own-update %d" % (hows, changed_then_restart, own_upd_after_restart))
     ctx.cov["evaluations"] = sum(run["layouts_tried"] for run in runs) + len(runs)
     ctx.cov["process_all_requirements_calls"] = sum(run["layouts_tried"] for run in runs)
     ctx.cov["exhaustively_permuted_line_sets"] = sum(1 for c in cases for run in c["hist"]["runs"] if 2 <= len(run["lines"]) <= (4 if ctx.quick else 5))
@@ -782,6 +919,9 @@ def main(ctx):
         "a requirement line is a token sequence; its text is the concatenation of the token texts (harness/drivers/c20.py:tok_text, the "
         "bridge); what it means is RequirementsCore!Classify; the generator's form labels are cross-checked against it (LabelOk)",
         "an inline comment is preceded by white space (pip's rule); `pkg==1.0#text` without a blank is not generated",
+        "between two runs virtual time passes (2 s, more than HA's delayed save of the config entries): 'stored' is what HA's storage "
+        "holds then; a restart is a clean stop and a new instance whose config entries are loaded from that storage (a crash inside the "
+        "save delay is not generated: the statement does not speak about it)",
         "requirements files live at the documented places (pyscript/, apps/X/, modules/X/) and scripts/X/ (REQUIREMENTS_PATHS)",
         "the installer succeeds: a pinned install makes exactly that version appear; an unpinned install makes the scripted 'latest' "
         "appear or nothing; whether stale record entries of foreign packages are dropped is left open by the statement (both accepted)",
